@@ -201,6 +201,8 @@ def _default_config_choice(ctx: Ctx, res: RuleResult):
             ops = ops[1:]  # `name = name or ...`: only when there is none yet
         elif (name_p, False) not in fs:
             bad = st
+        if any(isinstance(o, (ast.BoolOp, ast.IfExp)) for o in ops):
+            bad = st  # `default and first`: the default is never the answer
         seq += [norm(o) for o in ops]
     if hits:
         i_def = next((i for i, t in enumerate(seq) if "default_path_config" in t), None)
